@@ -95,6 +95,17 @@ def run(res, replay=None):
             if ib['rows_added'] != 3 or ib['first_column'] != [1.0, 2.0, 3.0]:
                 res.violation('bootstraps and runs interleaved: the table does not hold exactly one row per add_bootstrap in the order they were added',
                               {'case': c, 'observed': ib, 'expected_first_column': [1.0, 2.0, 3.0]})
+        pl = r.get('plural')
+        if pl is not None:
+            res.count(key + ':plural')
+            for how in ('list', 'iterator'):
+                if pl[how] != pl['singular'] or pl[how]['loss'] != pl['min_loss']:
+                    res.violation(f'add_runs given a {how} does not give what add_run gives one by one (the minimum over all runs, losses concatenated)',
+                                  {'case': c, 'how': how, 'observed': pl[how], 'one_by_one': pl['singular'], 'minimum_over_all_runs': pl['min_loss']})
+            for rw in pl['rows']:
+                if rw['rows_added'] != 3 or rw['first_column'] != pl['rows'][0]['first_column']:
+                    res.violation(f"add_bootstraps given a {rw['how']} does not append exactly one row per element",
+                                  {'case': c, 'observed': rw, 'one_by_one': pl['rows'][0]})
         pfm = r['perfect']
         for tag, mgd, a_, b_ in (('perfect fit + worse run', pfm['merged'], pfm['before'], pfm['other']),
                                  ('worse run + perfect fit', pfm['merged_reverse'], pfm['other'], pfm['before'])):
